@@ -19,20 +19,24 @@ fn c14_id_roundtrip() {
 }
 
 macro_rules! dec {
-    ($name:ident, $n:literal) => {
+    ($name:ident, $n:literal, $c:literal) => {
         #[kani::proof]
         #[kani::unwind(23)]
         #[kani::stub(std::backtrace::Backtrace::capture, crate::backtrace_stub)]
         #[kani::stub(alloc::fmt::format, crate::format_stub)]
         fn $name() {
-            hu::c14_urldecode_ref::<$n>();
+            hu::c14_urldecode_ref::<$n>($c);
         }
     };
 }
-dec!(c14_urldecode_n0, 0);
-dec!(c14_urldecode_n19, 19);
-dec!(c14_urldecode_n20, 20);
-dec!(c14_urldecode_n21, 21);
+// last argument: unit classes (2 = raw ASCII | %XY; 3 = also two-byte chars U+0080..U+07FF)
+dec!(c14_urldecode_n0, 0, 3);
+dec!(c14_urldecode_n1, 1, 3);
+dec!(c14_urldecode_n3_wide, 3, 3);
+dec!(c14_urldecode_n19, 19, 2);
+dec!(c14_urldecode_n20, 20, 2);
+dec!(c14_urldecode_n21, 21, 2);
+dec!(c14_urldecode_n20_wide, 20, 3);
 
 const MAXCOUNT: usize = 100_000;
 
